@@ -13,6 +13,7 @@ out, pids = sys.argv[1], sys.argv[2:]
 head = sh("git -C /repo rev-parse HEAD")[1].strip()
 sh("git checkout -q --detach %s; git checkout -- .; git clean -fdq" % head, cwd=R)
 tag = os.environ.get("MUT_TAG", "r2")
+rnd = int(tag[1:]) if tag[1:].isdigit() else 2
 for d in sorted(glob.glob(os.path.join(out, "m*"))):
     if not os.path.isdir(d): continue
     i = os.path.basename(d)
@@ -52,8 +53,8 @@ for d in sorted(glob.glob(os.path.join(out, "m*"))):
     for f in glob.glob(os.path.join(d, "*_test.go")): shutil.copy(f, dst)
     try: m = json.load(open(os.path.join(d, "meta.json")))
     except Exception: m = {}
-    meta = {"property": pids[0], "round": 2, "breaks": m.get("breaks"), "needs": m.get("needs"), "why_tests_pass": m.get("why_tests_pass"),
-            "author": "independent sub-agent (round 2) given only the property text, the list of round-1 ideas to avoid and a scratch worktree of /repo at %s" % head[:7],
+    meta = {"property": pids[0], "round": rnd, "breaks": m.get("breaks"), "needs": m.get("needs"), "why_tests_pass": m.get("why_tests_pass"),
+            "author": "independent sub-agent (round %d) given only the property text, the list of earlier rounds' ideas to avoid" % rnd + " and a scratch worktree of /repo at %s" % head[:7],
             "confirmed_by_me": "scratch worktree /tmp/try-repo at %s: patch applies; %s; demos: %s" % (head[:7], pinned, "; ".join(demos)),
             "check_result": "; ".join("%s: %s" % (p, r) for p, r in results.items()),
             "caught": bool(caught),
